@@ -61,6 +61,8 @@ def draw_cfg(st):
         cfg["gran"] = ["line", "op"][st.choose(2, "gran")]
         cfg["traced"] = ["_output.py", "_action.py"]
         cfg["max_ops"] = min(cfg["max_ops"], 20)
+    # messages logged before the first add_destinations: re-delivered to (possibly failing) destinations
+    cfg["prebuffer"] = [0, 0, 1, 3, 8][st.choose(5, "prebuffer")] if world == "seq" else 0
     n = 1 + st.choose(5, "n-dests")
     cfg["dests"] = [{"mask": MASKS[st.choose(len(MASKS), "mask")], "exc": st.choose(6, "exc-kind")}
                     for _ in range(n)]
@@ -81,8 +83,15 @@ def setup(rc, interp):
     rc.all_dests = []
     rc.registered = []
     ds = [_mk(rc, s) for s in rc.cfg["dests"]]
-    rc.eliot.add_destinations(rc.ref, *ds)
-    t = rc.stamp()
+    rc.pre = []
+    for k in range(rc.cfg.get("prebuffer", 0)):
+        nid = -(k + 1)
+        rc.pre.append(("msg", nid))
+        interp.api(("msg", nid), rc.eliot.log_message, message_type="c08:pre", nid=nid)
+    if rc.pre:
+        rc.probe("prebuffered_redelivery")
+    t = rc.stamp()          # registered from here on: the buffered backlog is re-delivered *during* the add
+    interp.api(("destop", "first-add"), rc.eliot.add_destinations, rc.ref, *ds)
     for d in ds:
         d.intervals.append([t, None])
         rc.registered.append(d)
@@ -141,7 +150,9 @@ def oracle_seq(rc):
     # 1. the non-report messages are exactly the program's emissions, in order
     emitted = [lab for (_seq, _cid, lab) in rc.returns
                if isinstance(lab, tuple) and lab[0] in ("start", "end", "msg", "tb")]
-    got = [r.call[1] for r in S if not is_report(r.msg)]
+    # (a re-delivered buffered message is offered during the add call; it is recognised by its content)
+    got = [("msg", r.msg["nid"]) if r.msg.get("message_type") == "c08:pre" else r.call[1]
+           for r in S if not is_report(r.msg)]
     if got != emitted:
         n = min(len(got), len(emitted))
         i = next((k for k in range(n) if got[k] != emitted[k]), n)
